@@ -29,6 +29,7 @@ struct netbuf_read {
 	void * cookie;			/* Cookie for _wait. */
 	void * read_cookie;		/* From network_read. */
 	void * immediate_cookie;	/* From events_immediate_register. */
+	size_t waitlen;			/* Bytes wanted by _wait. */
 
 	/* Buffer state. */
 	uint8_t * buf;			/* Current read buffer. */
@@ -39,6 +40,7 @@ struct netbuf_read {
 
 static int callback_success(void *);
 static int callback_read(void *, ssize_t);
+static int netbuf_read_more(struct netbuf_read *);
 
 /**
  * netbuf_read_init(s):
@@ -175,20 +177,41 @@ netbuf_read_wait(struct netbuf_read * R, size_t len,
 		R->bufpos = 0;
 	}
 
-	/* Read data into the buffer. */
+	/* Read data into the buffer until we have enough. */
+	R->waitlen = len;
+	if (netbuf_read_more(R))
+		goto err0;
+
+done:
+	/* Success! */
+	return (0);
+
+err0:
+	/* Failure! */
+	return (-1);
+}
+
+/* Launch a read of at least one more byte into the buffer. */
+static int
+netbuf_read_more(struct netbuf_read * R)
+{
+
+	/*
+	 * We ask for a minimum of one byte and count every completed read
+	 * immediately; that way a cancelled wait never loses data which has
+	 * already been taken from the socket.
+	 */
 	if (R->ssl) {
 		if ((R->read_cookie = (netbuf_read_ssl_func)(R->ssl,
-		    &R->buf[R->datalen], R->buflen - R->datalen,
-		    R->bufpos + len - R->datalen, callback_read, R)) == NULL)
+		    &R->buf[R->datalen], R->buflen - R->datalen, 1,
+		    callback_read, R)) == NULL)
 			goto err0;
 	} else {
 		if ((R->read_cookie = network_read(R->s, &R->buf[R->datalen],
-		    R->buflen - R->datalen, R->bufpos + len - R->datalen,
-		    callback_read, R)) == NULL)
+		    R->buflen - R->datalen, 1, callback_read, R)) == NULL)
 			goto err0;
 	}
 
-done:
 	/* Success! */
 	return (0);
 
@@ -235,6 +258,13 @@ callback_read(void * cookie, ssize_t lenread)
 
 	/* We've got more data. */
 	R->datalen += (size_t)lenread;
+
+	/* If we don't have enough yet, keep reading. */
+	if (R->datalen - R->bufpos < R->waitlen) {
+		if (netbuf_read_more(R))
+			goto failed;
+		return (0);
+	}
 
 	/* Perform callback. */
 	return ((R->callback)(R->cookie, 0));
